@@ -253,6 +253,29 @@ def run(res, b, tier, seed):
         nest = "x := 1\n" + "".join("\t" * d + "if x == %d {\n" % d for d in range(n_f)) + "\t" * n_f + "print(x)\n" + "".join("\t" * d + "}\n" for d in reversed(range(n_f)))
         add("deep-nesting", {"a.tsh": nest.encode()})
         add("long-expression", {"a.tsh": ("x := " + " + ".join(["1"] * (n_f * 20)) + "\nprint(x)\n").encode()})
+    # arithmetic on CONSTANTS, the degenerate values included (a zero divisor written as a literal or as a constant expression, the extreme
+    # 32 / 64-bit values): whatever a stage does with constants at transpile time, it must not crash on them (round 13: C13-F, a constant
+    # folder in the parser that divides in Go)
+    zeros = ["0", "(1 - 1)", "(2 * 0)", "(3 % 3)", "-0", "(0)", "(5 - (2 + 3))"]
+    consts = ["10", "-7", "0", "2147483647", "-2147483648", "9223372036854775807", "(4 + 6)"]
+    arith = []
+    for op in ("/", "%"):
+        for l in consts:
+            for z in zeros:
+                arith.append("%s %s %s" % (l, op, z))
+    for op in ("+", "-", "*", "/", "%"):
+        for l in consts:
+            for r_ in consts:
+                arith.append("%s %s %s" % (l, op, r_))
+    rng.shuffle(arith)
+    ctxs = ["x := %s\nprint(x)\n", "print(%s)\n", "if %s == 1 {\n\tprint(1)\n}\n", "s := []int{1, 2}\nprint(s[%s])\n", "func f(a int) int {\n\treturn a + %s\n}\nprint(f(2))\n",
+            "for i := %s; i < 3; i++ {\n\tprint(i)\n}\n", "a := 5\nb := a + 7 * (%s)\nprint(b)\n", "t := \"abc\"\nprint(t[%s:])\n", "switch %s {\ncase 1:\n\tprint(1)\n}\n"]
+    for k, e in enumerate(arith[:(150 if quick else len(arith))]):
+        add("constant-arithmetic", {"a.tsh": (ctxs[k % len(ctxs)] % e).encode()})
+    for z in zeros:
+        for c_ in ctxs:
+            add("constant-arithmetic", {"a.tsh": (c_ % ("10 / " + z)).encode()})
+            add("constant-arithmetic", {"a.tsh": (c_ % ("10 %% " + z).replace("%%", "%")).encode()})
     add("missing-main", {"other.tsh": b"print(1)\n"})
     add("dir-as-main", {"a.tsh/x": b""})
     pipeline.run_pipe(b, cases, "tasw", timeout=120)
